@@ -23,6 +23,27 @@ Theorem c06_shownet_layout :
 Proof. reflexivity. Qed.
 Print Assumptions c06_shownet_layout.
 
+(* every constant the shownet model takes from the repository (sizeof / offsetof of the packed wire structs, opcodes,
+   vectors, masks), regenerated into GenShowNet.v on each run, pinned to the value the proofs and statements were written
+   for: a change of the wire layout or of a constant in /repo breaks this obligation deterministically *)
+Theorem c06_shownet_consts :
+  SN_PACKET_SIZE = 1316 /\
+  SN_HEADER_SIZE = 6 /\
+  SN_COMPRESSED_SIZE = 1310 /\
+  SN_COMPRESSED_DATA_LENGTH = 1269 /\
+  SN_OFF_type = 0 /\
+  SN_OFF_netSlot = 0 /\
+  SN_OFF_slotSize = 8 /\
+  SN_OFF_indexBlock = 16 /\
+  SN_OFF_data = 41 /\
+  SN_MAGIC_INDEX_OFFSET = 11 /\
+  SN_COMPRESSED_DMX_PACKET = 32911 /\
+  SN_PTR_SIZE = 8 /\
+  DMX_UNIVERSE_SIZE = 512 /\
+  REPEAT_FLAG = 128.
+Proof. repeat split; reflexivity. Qed.
+Print Assumptions c06_shownet_consts.
+
 Theorem c06_shownet_terminates : forall buf n st,
   bytes_ok buf = true -> run buf (shownet_handle n st) <> Hazard OutOfFuel.
 Proof. intros buf n st Hb E. pose proof (nofail_run _ (shownet_nofail n st) buf _ Hb E). discriminate. Qed.
@@ -35,6 +56,18 @@ Proof.
   intros E. pose proof (nofail_run _ (shownet_nofail n st) buf _ Hb E). discriminate.
 Qed.
 Print Assumptions c06_shownet_no_div0.
+
+(* "never fails to return", loop by loop.  RunLengthEncoder::Decode (ShowNet, SandNet): wherever it is pointed
+   (any base, any length < 2^32, any buffer) it ends within fuel = length + 1; measure: length - i, every turn
+   consumes at least the flag byte *)
+Theorem c06_rle_decode_returns : forall buf start base length b,
+  bytes_ok buf = true -> length < 4294967296 ->
+  run buf (rle_decode start base length b) <> Hazard OutOfFuel.
+Proof.
+  intros buf start base length b Hb Hl E.
+  pose proof (nofail_run _ (rle_decode_nofail start base length b Hl) buf _ Hb E) as H. discriminate H.
+Qed.
+Print Assumptions c06_rle_decode_returns.
 
 (* a full-size datagram whose raw block is data[1268..1270): one byte past the packet is read *)
 Definition sn_over : list N :=
@@ -123,6 +156,39 @@ Proof.
 Qed.
 Print Assumptions c06_shownet_proposedfix_stale_free.
 
+(* history level, for the code as it is: any sequence of datagrams each satisfying the state-independent syntactic
+   guard `sn_all` (sn_syn for a node that has a handler for the datagram's own universe), from any handler state,
+   with arbitrary stale tails: no hazard, and all outputs and the final state independent of the tails *)
+Theorem c06_shownet_history_partial : forall (h1 h2 : list (unit * list N * list N)) st,
+  Forall (fun x => let '(_, d, _) := x in bytes_ok d = true /\ len d <= 1316 /\ sn_all d = true) h1 ->
+  Forall2 (fun x y => fst x = fst y) h1 h2 ->
+  run_hist sn_step sn_next st h1 = run_hist sn_step sn_next st h2 /\
+  exists r, run_hist sn_step sn_next st h1 = Done r.
+Proof.
+  intros h1 h2 st Hok H2. apply hist_within_stale_free; [exact H2|].
+  assert (E : map fst h1 = map (fun d => (tt, d)) (map (fun x => snd (fst x)) h1)).
+  { rewrite map_map. apply map_ext. intros [[[] d] t]. reflexivity. }
+  rewrite E. apply sn_hist_within. apply Forall_map.
+  eapply Forall_impl; [|exact Hok]. intros [[[] d] t] H. exact H.
+Qed.
+Print Assumptions c06_shownet_history_partial.
+
+(* and with the proposed fix: every history *)
+Theorem c06_shownet_proposedfix_history : forall (h1 h2 : list (unit * list N * list N)) st,
+  Forall (fun x => let '(_, d, t) := x in bytes_ok d = true /\ bytes_ok t = true /\ len d <= 1316) h1 ->
+  Forall2 (fun x y => fst x = fst y) h1 h2 ->
+  (exists r, run_hist (fun (_ : unit) n s => shownet_handle_fixed n s) sn_next st h1 = Done r) /\
+  run_hist (fun (_ : unit) n s => shownet_handle_fixed n s) sn_next st h1 = run_hist (fun (_ : unit) n s => shownet_handle_fixed n s) sn_next st h2.
+Proof.
+  intros h1 h2 st Hok H2.
+  assert (Hb : forall (i : unit) n s, n <= SN_PACKET_SIZE -> bounded n (shownet_handle_fixed n s))
+    by (intros; apply shownet_fixed_bounded; assumption).
+  split.
+  - apply (hist_safe SN_PACKET_SIZE _ _ Hb). exact Hok.
+  - apply (hist_stale_free SN_PACKET_SIZE _ _ Hb); assumption.
+Qed.
+Print Assumptions c06_shownet_proposedfix_history.
+
 (* the guard is satisfiable by an accepted datagram; the two witnesses are outside it *)
 Definition sn_good : list N :=
   [128; 143; 10; 0; 0; 2] ++ [1; 0] ++ repeat 0 6 ++ [4; 0] ++ repeat 0 6 ++ [11; 0; 13; 0] ++ repeat 0 6
@@ -134,9 +200,23 @@ Example ex_shownet_handled :
 Proof. vm_compute. split; reflexivity. Qed.
 Example ex_shownet_outside : sn_within sn_short [(0, None)] = false /\ sn_within sn_over [(0, None)] = false.
 Proof. vm_compute. split; reflexivity. Qed.
+Example ex_shownet_all : sn_all sn_good = true /\ sn_all sn_short = false.
+Proof. vm_compute. split; reflexivity. Qed.
 Example ex_shownet_syn : sn_syn sn_good [(0, None)] = true /\ sn_syn sn_short [(0, None)] = false /\
   sn_hdr sn_short [(0, None)] = true /\ sn_syn sn_over [(0, None)] = false.
 Proof. vm_compute. repeat split; reflexivity. Qed.
+
+(* a two-datagram history inside the guard: both accepted, the second overwrites slot 0-2 again; stale tails differ *)
+Example ex_shownet_history :
+  Forall (fun x => let '(_, d, _) := x in bytes_ok d = true /\ len d <= 1316 /\ sn_all d = true)
+         [(tt, sn_good, repeat 0 1267); (tt, sn_good, repeat 165 1267)] /\
+  run_hist sn_step sn_next [(0, None)] [(tt, sn_good, repeat 0 1267); (tt, sn_good, repeat 165 1267)]
+  = Done ([(0, Some ([9; 9; 9] ++ repeat 0 509))],
+          [([(0, Some ([9; 9; 9] ++ repeat 0 509))], Some 0); ([(0, Some ([9; 9; 9] ++ repeat 0 509))], Some 0)]).
+Proof.
+  split; [|vm_compute; reflexivity].
+  repeat (apply Forall_cons; [vm_compute; repeat split; try reflexivity; discriminate|]). apply Forall_nil.
+Qed.
 
 (* ---------------------------------------------------------------- E1.31 / ACN
    Receive buffer: IncomingUDPTransport::m_recv_buffer (1472 bytes).  n = bytes received, hs = the universe
@@ -147,6 +227,81 @@ Theorem c06_acn_layout :
   (1472, 16, 16, 71, 36, 1, 4, 4, 1).
 Proof. reflexivity. Qed.
 Print Assumptions c06_acn_layout.
+
+(* every constant the acn model takes from the repository (sizeof / offsetof of the packed wire structs, opcodes,
+   vectors, masks), regenerated into GenAcn.v on each run, pinned to the value the proofs and statements were written
+   for: a change of the wire layout or of a constant in /repo breaks this obligation deterministically *)
+Theorem c06_acn_consts :
+  ACN_MAX_DATAGRAM = 1472 /\
+  ACN_HEADER_SIZE = 16 /\
+  ACN_PRE_0 = 0 /\
+  ACN_PRE_1 = 16 /\
+  ACN_PRE_2 = 0 /\
+  ACN_PRE_3 = 0 /\
+  ACN_PRE_4 = 65 /\
+  ACN_PRE_5 = 83 /\
+  ACN_PRE_6 = 67 /\
+  ACN_PRE_7 = 45 /\
+  ACN_PRE_8 = 69 /\
+  ACN_PRE_9 = 49 /\
+  ACN_PRE_10 = 46 /\
+  ACN_PRE_11 = 49 /\
+  ACN_PRE_12 = 55 /\
+  ACN_PRE_13 = 0 /\
+  ACN_PRE_14 = 0 /\
+  ACN_PRE_15 = 0 /\
+  LFLAG_MASK = 128 /\
+  LENGTH_MASK = 15 /\
+  VFLAG_MASK = 64 /\
+  HFLAG_MASK = 32 /\
+  CID_LENGTH = 16 /\
+  ROOT_VECTOR_SIZE = 4 /\
+  E131_VECTOR_SIZE = 4 /\
+  DMP_VECTOR_SIZE = 1 /\
+  E131_HEADER_SIZE = 71 /\
+  E131_OFF_priority = 64 /\
+  E131_OFF_sequence = 67 /\
+  E131_OFF_options = 68 /\
+  E131_OFF_universe = 69 /\
+  E131_PREVIEW_MASK = 128 /\
+  E131_TERMINATED_MASK = 64 /\
+  REV2_HEADER_SIZE = 36 /\
+  REV2_OFF_priority = 32 /\
+  REV2_OFF_sequence = 33 /\
+  REV2_OFF_universe = 34 /\
+  DMP_HEADER_SIZE = 1 /\
+  DMP_VIRTUAL_MASK = 128 /\
+  DMP_RELATIVE_MASK = 64 /\
+  DMP_TYPE_MASK = 48 /\
+  DMP_SIZE_MASK = 3 /\
+  DMP_TWO_BYTES = 1 /\
+  DMP_ADDR_UNIT = 2 /\
+  DMP_RANGE_EQUAL = 2 /\
+  VECTOR_ROOT_E131 = 4 /\
+  VECTOR_ROOT_E131_REV2 = 3 /\
+  VECTOR_E131_DATA = 2 /\
+  VECTOR_E131_DISCOVERY = 4 /\
+  DMP_SET_PROPERTY_VECTOR = 2 /\
+  E131_SOURCE_NAME_LEN = 64 /\
+  E131_OFF_source = 0 /\
+  REV2_SOURCE_NAME_LEN = 32 /\
+  REV2_OFF_source = 0 /\
+  VECTOR_ROOT_RPT = 5 /\
+  VECTOR_ROOT_LLRP = 10 /\
+  VECTOR_FRAMING_RDMNET = 1 /\
+  VECTOR_LLRP_RDM_CMD = 3 /\
+  VECTOR_RDM_CMD_RDM_DATA = 204 /\
+  RDM_VECTOR_SIZE = 1 /\
+  E133_HEADER_SIZE = 71 /\
+  E133_OFF_sequence = 64 /\
+  E133_OFF_endpoint = 68 /\
+  LLRP_HEADER_SIZE = 20 /\
+  LLRP_OFF_transaction = 16 /\
+  MAX_E131_PRIORITY = 200 /\
+  MAX_MERGE_SOURCES = 6 /\
+  SEQ_DIFF_THRESHOLD_NEG = 20.
+Proof. repeat split; reflexivity. Qed.
+Print Assumptions c06_acn_consts.
 
 Theorem c06_acn_no_oob : forall buf ign n hs,
   bytes_ok buf = true -> len buf = 1472 -> n <= len buf ->
@@ -175,6 +330,58 @@ Proof.
   unfold ACN_MAX_DATAGRAM. lia.
 Qed.
 Print Assumptions c06_acn_stale_free.
+
+(* "never fails to return": the PDU block walkers (BaseInflator::InflatePDUBlock at the root, E1.31, E1.31 rev2,
+   DMP, E1.33, LLRP and RDM levels, nested) and the discovery page walk, for a block at any offset and of any
+   length: fuel = block length + 1; measure: length - offset, every PDU advances the offset by at least the two
+   bytes of its length field (a PDU shorter than its own length field ends the walk) *)
+Theorem c06_acn_walkers_return : forall buf ign cid src off l st z,
+  bytes_ok buf = true -> z <> Oob ->
+  run buf (root_block ign off l st) <> Hazard z /\ run buf (e131_block ign cid off l st) <> Hazard z /\
+  run buf (rev2_block ign cid off l st) <> Hazard z /\ run buf (e133_block off l st) <> Hazard z /\
+  run buf (llrp_block off l st) <> Hazard z /\ run buf (disc_handle cid src off l st) <> Hazard z.
+Proof.
+  intros buf ign cid src off l st z Hb Hz.
+  repeat split; intros E; apply Hz.
+  - exact (nofail_run _ (bounded_nofail _ _ (root_block_bounded (off + l) ign off l st (N.le_refl _))) buf z Hb E).
+  - exact (nofail_run _ (bounded_nofail _ _ (e131_block_bounded (off + l) ign cid off l st (N.le_refl _))) buf z Hb E).
+  - exact (nofail_run _ (bounded_nofail _ _ (rev2_block_bounded (off + l) ign cid off l st (N.le_refl _))) buf z Hb E).
+  - exact (nofail_run _ (bounded_nofail _ _ (e133_block_bounded (off + l) off l st (N.le_refl _))) buf z Hb E).
+  - exact (nofail_run _ (bounded_nofail _ _ (llrp_block_bounded (off + l) off l st (N.le_refl _))) buf z Hb E).
+  - exact (nofail_run _ (bounded_nofail _ _ (disc_handle_bounded (off + l) cid src off l st (N.le_refl _))) buf z Hb E).
+Qed.
+Print Assumptions c06_acn_walkers_return.
+
+(* independent of the capacity and of what the socket layer reports: for a receive buffer of ANY size and ANY reported
+   length n < 2^31 the handler returns (its loops end within their fuel: PDU block walks: fuel = block length + 1, each PDU advances the offset by at least its 2-byte length field; discovery page walk: 2 bytes per turn) and never divides by zero; and if
+   the buffer does hold n bytes it reads nothing at or beyond n *)
+Theorem c06_acn_any_length : forall buf n ign hs,
+  bytes_ok buf = true -> n <= 2147483647 ->
+  (forall z, z <> Oob -> run buf (acn_handle ign n hs) <> Hazard z) /\
+  (n <= len buf -> forall z, run buf (acn_handle ign n hs) <> Hazard z).
+Proof.
+  intros buf n ign hs Hb Hn. pose proof (acn_bounded_any ign n hs Hn) as B. split.
+  - intros z Hz E. apply Hz. exact (nofail_run _ (bounded_nofail _ _ B) buf z Hb E).
+  - intros Hl z. apply (bounded_no_hazard n); assumption.
+Qed.
+Print Assumptions c06_acn_any_length.
+
+(* history level: any sequence of datagrams (with the node's ignore-preview setting), each followed in the receive buffer by arbitrary stale bytes, from any
+   initial state: no datagram ends in a hazard, and every output and the final state are the same whatever the
+   stale tails are *)
+Theorem c06_acn_history : forall (h1 h2 : list (bool * list N * list N)) s,
+  Forall (fun x => let '(_, d, t) := x in bytes_ok d = true /\ bytes_ok t = true /\ len d <= 1472) h1 ->
+  Forall2 (fun x y => fst x = fst y) h1 h2 ->
+  (exists r, run_hist (fun ign n hs => acn_handle ign n hs) (fun _ r => fst r) s h1 = Done r) /\
+  run_hist (fun ign n hs => acn_handle ign n hs) (fun _ r => fst r) s h1 = run_hist (fun ign n hs => acn_handle ign n hs) (fun _ r => fst r) s h2.
+Proof.
+  intros h1 h2 s Hok H2.
+  assert (Hb : forall i n st, n <= ACN_MAX_DATAGRAM -> bounded n ((fun ign n hs => acn_handle ign n hs) i n st)) by (intros; apply acn_bounded; assumption).
+  split.
+  - apply (hist_safe ACN_MAX_DATAGRAM _ _ Hb). exact Hok.
+  - apply (hist_stale_free ACN_MAX_DATAGRAM _ _ Hb); assumption.
+Qed.
+Print Assumptions c06_acn_history.
 
 Example ex_acn_data_handled :
   run ([0; 16; 0; 0; 65; 83; 67; 45; 69; 49; 46; 49; 55; 0; 0; 0; 112; 113; 0; 0; 0; 4; 17; 17; 17; 17; 17; 17; 17; 17; 17; 17; 17; 17; 17; 17; 17; 1; 112; 91; 0; 0; 0; 2; 115; 111; 117; 114; 99; 101; 0; 0; 0; 0; 0; 0; 0; 0; 0; 0; 0; 0; 0; 0; 0; 0; 0; 0; 0; 0; 0; 0; 0; 0; 0; 0; 0; 0; 0; 0; 0; 0; 0; 0; 0; 0; 0; 0; 0; 0; 0; 0; 0; 0; 0; 0; 0; 0; 0; 0; 0; 0; 0; 0; 0; 0; 0; 0; 100; 0; 0; 7; 0; 0; 1; 112; 14; 2; 161; 0; 0; 0; 1; 0; 4; 0; 9; 8; 7] ++ repeat 165 1343)
@@ -210,6 +417,88 @@ Theorem c06_artnet_layout :
 Proof. reflexivity. Qed.
 Print Assumptions c06_artnet_layout.
 
+(* every constant the artnet model takes from the repository (sizeof / offsetof of the packed wire structs, opcodes,
+   vectors, masks), regenerated into GenArtNet.v on each run, pinned to the value the proofs and statements were written
+   for: a change of the wire layout or of a constant in /repo breaks this obligation deterministically *)
+Theorem c06_artnet_consts :
+  AN_PACKET_SIZE = 1228 /\
+  AN_HEADER_SIZE = 10 /\
+  AN_OFF_op_code = 8 /\
+  AN_MAX_PORTS = 4 /\
+  AN_VERSION = 14 /\
+  AN_RDM_VERSION = 1 /\
+  AN_TOD_FLUSH_COMMAND = 1 /\
+  AN_MAX_RDM_ADDRESS_COUNT = 32 /\
+  AN_UID_SIZE = 6 /\
+  AN_OP_POLL = 8192 /\
+  AN_OP_REPLY = 8448 /\
+  AN_OP_DMX = 20480 /\
+  AN_OP_SYNC = 20992 /\
+  AN_OP_TODREQUEST = 32768 /\
+  AN_OP_TODDATA = 33024 /\
+  AN_OP_TODCONTROL = 33280 /\
+  AN_OP_RDM = 33536 /\
+  AN_OP_RDM_SUB = 33792 /\
+  AN_OP_TIME_CODE = 38656 /\
+  AN_OP_IP_PROGRAM = 63488 /\
+  AN_POLL_SIZE = 4 /\
+  AN_POLL_version = 0 /\
+  AN_POLL_talk_to_me = 2 /\
+  AN_REPLY_MIN = 197 /\
+  AN_REPLY_net_address = 8 /\
+  AN_REPLY_number_ports = 162 /\
+  AN_REPLY_port_types = 164 /\
+  AN_REPLY_sw_out = 180 /\
+  AN_DMX_HDR = 8 /\
+  AN_DMX_version = 0 /\
+  AN_DMX_universe = 4 /\
+  AN_DMX_net = 5 /\
+  AN_DMX_length = 6 /\
+  AN_DMX_data = 8 /\
+  AN_TRQ_HDR = 14 /\
+  AN_TRQ_version = 0 /\
+  AN_TRQ_net = 11 /\
+  AN_TRQ_command = 12 /\
+  AN_TRQ_address_count = 13 /\
+  AN_TRQ_addresses = 14 /\
+  AN_TD_HDR = 18 /\
+  AN_TD_version = 0 /\
+  AN_TD_rdm_version = 2 /\
+  AN_TD_net = 11 /\
+  AN_TD_command_response = 12 /\
+  AN_TD_address = 13 /\
+  AN_TD_uid_total = 14 /\
+  AN_TD_uid_count = 17 /\
+  AN_TD_tod = 18 /\
+  AN_TC_SIZE = 14 /\
+  AN_TC_version = 0 /\
+  AN_TC_net = 11 /\
+  AN_TC_command = 12 /\
+  AN_TC_address = 13 /\
+  AN_RDM_HDR = 14 /\
+  AN_RDM_version = 0 /\
+  AN_RDM_rdm_version = 2 /\
+  AN_RDM_net = 11 /\
+  AN_RDM_command = 12 /\
+  AN_RDM_address = 13 /\
+  AN_RDM_data = 14 /\
+  AN_IP_SIZE = 24 /\
+  AN_IP_version = 0 /\
+  AN_REPLY_TX_SIZE = 239 /\
+  RDMH_SIZE = 23 /\
+  RDMH_sub_start_code = 0 /\
+  RDMH_message_length = 1 /\
+  RDMH_destination_uid = 2 /\
+  RDMH_command_class = 19 /\
+  RDMH_param_data_length = 22 /\
+  RDM_START_CODE = 204 /\
+  RDM_SUB_START_CODE = 1 /\
+  RDM_CC_DISCOVER = 16 /\
+  RDM_CC_GET = 32 /\
+  RDM_CC_SET = 48.
+Proof. repeat split; reflexivity. Qed.
+Print Assumptions c06_artnet_consts.
+
 Theorem c06_artnet_no_oob : forall buf n st,
   bytes_ok buf = true -> len buf = 1228 -> n <= len buf ->
   run buf (artnet_handle n st) <> Hazard Oob.
@@ -241,6 +530,37 @@ Proof.
 Qed.
 Print Assumptions c06_artnet_stale_free.
 
+(* independent of the capacity and of what the socket layer reports: for a receive buffer of ANY size and ANY reported
+   length n < 2^31 the handler returns (its loops end within their fuel: port / address / UID loops: fuel = the clamped count) and never divides by zero; and if
+   the buffer does hold n bytes it reads nothing at or beyond n *)
+Theorem c06_artnet_any_length : forall buf n st,
+  bytes_ok buf = true -> n <= 2147483647 ->
+  (forall z, z <> Oob -> run buf (artnet_handle n st) <> Hazard z) /\
+  (n <= len buf -> forall z, run buf (artnet_handle n st) <> Hazard z).
+Proof.
+  intros buf n st Hb Hn. pose proof (artnet_bounded_any n st Hn) as B. split.
+  - intros z Hz E. apply Hz. exact (nofail_run _ (bounded_nofail _ _ B) buf z Hb E).
+  - intros Hl z. apply (bounded_no_hazard n); assumption.
+Qed.
+Print Assumptions c06_artnet_any_length.
+
+(* history level: any sequence of datagrams, each followed in the receive buffer by arbitrary stale bytes, from any
+   initial state: no datagram ends in a hazard, and every output and the final state are the same whatever the
+   stale tails are *)
+Theorem c06_artnet_history : forall (h1 h2 : list (unit * list N * list N)) s,
+  Forall (fun x => let '(_, d, t) := x in bytes_ok d = true /\ bytes_ok t = true /\ len d <= 1228) h1 ->
+  Forall2 (fun x y => fst x = fst y) h1 h2 ->
+  (exists r, run_hist (fun (_ : unit) n st => artnet_handle n st) (fun _ r => fst r) s h1 = Done r) /\
+  run_hist (fun (_ : unit) n st => artnet_handle n st) (fun _ r => fst r) s h1 = run_hist (fun (_ : unit) n st => artnet_handle n st) (fun _ r => fst r) s h2.
+Proof.
+  intros h1 h2 s Hok H2.
+  assert (Hb : forall i n st, n <= AN_PACKET_SIZE -> bounded n ((fun (_ : unit) n st => artnet_handle n st) i n st)) by (intros; apply artnet_bounded; assumption).
+  split.
+  - apply (hist_safe AN_PACKET_SIZE _ _ Hb). exact Hok.
+  - apply (hist_stale_free AN_PACKET_SIZE _ _ Hb); assumption.
+Qed.
+Print Assumptions c06_artnet_history.
+
 (* an ArtDmx for universe 0x23 on net 4 carrying 3 slots, then stale bytes: accepted, buffer replaced *)
 Example ex_artnet_handled :
   run ([65; 114; 116; 45; 78; 101; 116; 0; 0; 80] ++ [0; 14; 0; 1; 35; 4; 0; 3] ++ [7; 8; 9] ++ repeat 165 1207)
@@ -256,6 +576,33 @@ Theorem c06_espnet_layout :
   (521, 4, 5, 33, 6, 521, 9, 9).
 Proof. reflexivity. Qed.
 Print Assumptions c06_espnet_layout.
+
+(* every constant the espnet model takes from the repository (sizeof / offsetof of the packed wire structs, opcodes,
+   vectors, masks), regenerated into GenEspNet.v on each run, pinned to the value the proofs and statements were written
+   for: a change of the wire layout or of a constant in /repo breaks this obligation deterministically *)
+Theorem c06_espnet_consts :
+  ES_PACKET_SIZE = 521 /\
+  ES_HEAD_SIZE = 4 /\
+  ES_POLL_SIZE = 5 /\
+  ES_REPLY_SIZE = 33 /\
+  ES_ACK_SIZE = 6 /\
+  ES_DATA_SIZE = 521 /\
+  ES_OFF_poll_type = 4 /\
+  ES_OFF_universe = 4 /\
+  ES_OFF_type = 6 /\
+  ES_OFF_size = 7 /\
+  ES_OFF_data = 9 /\
+  ES_POLL = 1163087952 /\
+  ES_REPLY = 1163087954 /\
+  ES_DMX = 1163084868 /\
+  ES_ACK = 1163084112 /\
+  ES_DATA_RAW = 1 /\
+  ES_DATA_PAIRS = 2 /\
+  ES_DATA_RLE = 4 /\
+  ES_REPEAT_VALUE = 254 /\
+  ES_ESCAPE_VALUE = 253.
+Proof. repeat split; reflexivity. Qed.
+Print Assumptions c06_espnet_consts.
 
 Theorem c06_espnet_no_oob : forall buf n self st,
   bytes_ok buf = true -> len buf = 521 -> n <= len buf ->
@@ -286,6 +633,47 @@ Proof.
 Qed.
 Print Assumptions c06_espnet_stale_free.
 
+(* "never fails to return": espnet RunLengthDecoder::Decode, wherever it is pointed, ends within
+   fuel = length + 1; measure: length - p, every turn consumes at least one byte *)
+Theorem c06_espnet_rle_returns : forall buf base length b z,
+  bytes_ok buf = true -> z <> Oob -> run buf (es_rle_decode base length b) <> Hazard z.
+Proof.
+  intros buf base length b z Hb Hz E. apply Hz.
+  exact (nofail_run _ (bounded_nofail _ _ (es_rle_decode_bounded (base + length) base length b (N.le_refl _))) buf z Hb E).
+Qed.
+Print Assumptions c06_espnet_rle_returns.
+
+(* independent of the capacity and of what the socket layer reports: for a receive buffer of ANY size and ANY reported
+   length n < 2^31 the handler returns (its loops end within their fuel: RLE decoder: fuel = data length + 1, every turn consumes at least one byte) and never divides by zero; and if
+   the buffer does hold n bytes it reads nothing at or beyond n *)
+Theorem c06_espnet_any_length : forall buf n self st,
+  bytes_ok buf = true -> n <= 2147483647 ->
+  (forall z, z <> Oob -> run buf (es_handle n self st) <> Hazard z) /\
+  (n <= len buf -> forall z, run buf (es_handle n self st) <> Hazard z).
+Proof.
+  intros buf n self st Hb Hn. pose proof (espnet_bounded_any n self st Hn) as B. split.
+  - intros z Hz E. apply Hz. exact (nofail_run _ (bounded_nofail _ _ B) buf z Hb E).
+  - intros Hl z. apply (bounded_no_hazard n); assumption.
+Qed.
+Print Assumptions c06_espnet_any_length.
+
+(* history level: any sequence of datagrams (each from our own address or not), each followed in the receive buffer by arbitrary stale bytes, from any
+   initial state: no datagram ends in a hazard, and every output and the final state are the same whatever the
+   stale tails are *)
+Theorem c06_espnet_history : forall (h1 h2 : list (bool * list N * list N)) s,
+  Forall (fun x => let '(_, d, t) := x in bytes_ok d = true /\ bytes_ok t = true /\ len d <= 521) h1 ->
+  Forall2 (fun x y => fst x = fst y) h1 h2 ->
+  (exists r, run_hist (fun self n st => es_handle n self st) (fun _ r => fst (fst r)) s h1 = Done r) /\
+  run_hist (fun self n st => es_handle n self st) (fun _ r => fst (fst r)) s h1 = run_hist (fun self n st => es_handle n self st) (fun _ r => fst (fst r)) s h2.
+Proof.
+  intros h1 h2 s Hok H2.
+  assert (Hb : forall i n st, n <= ES_PACKET_SIZE -> bounded n ((fun self n st => es_handle n self st) i n st)) by (intros; apply espnet_bounded; assumption).
+  split.
+  - apply (hist_safe ES_PACKET_SIZE _ _ Hb). exact Hok.
+  - apply (hist_stale_free ES_PACKET_SIZE _ _ Hb); assumption.
+Qed.
+Print Assumptions c06_espnet_history.
+
 (* an RLE data packet "ESDD" universe 0, type RLE, size 6: 7, REPEAT 3 x 9, ESCAPE 0xFE; the trailing REPEAT of a
    7-byte variant is not decoded (see ex_espnet_tail) *)
 Example ex_espnet_handled :
@@ -304,6 +692,15 @@ Example ex_espnet_poll :
   run ([69; 83; 80; 80; 1] ++ repeat 165 516) (es_handle 5 false []) = Done ([], None, EsTxReply).
 Proof. vm_compute. reflexivity. Qed.
 
+(* a two-datagram history meeting the hypotheses of c06_espnet_history: an RLE data packet, then a poll *)
+Example ex_espnet_history :
+  run_hist (fun self n st => es_handle n self st) (fun _ r => fst (fst r)) [(0, Some [1; 2])]
+    [(false, [69; 83; 68; 68; 0; 0; 4; 0; 6; 7; 254; 3; 9; 253; 254], repeat 165 506);
+     (false, [69; 83; 80; 80; 1], repeat 0 516)]
+  = Done ([(0, Some [7; 9; 9; 9; 254])],
+          [([(0, Some [7; 9; 9; 9; 254])], Some 0, EsTxNone); ([(0, Some [7; 9; 9; 9; 254])], None, EsTxReply)]).
+Proof. vm_compute. reflexivity. Qed.
+
 (* ---------------------------------------------------------------- SandNet
    Receive buffer: the sandnet_packet on SocketReady's stack (524 bytes).  n = bytes received, self = the datagram
    came from our own address, st = the registered handlers (any (group, universe) keys, any buffers). *)
@@ -312,6 +709,31 @@ Theorem c06_sandnet_layout :
    SA_ADVERTISEMENT_SIZE) = (524, 2, 2, 3, 10, 3, 10, 235).
 Proof. reflexivity. Qed.
 Print Assumptions c06_sandnet_layout.
+
+(* every constant the sandnet model takes from the repository (sizeof / offsetof of the packed wire structs, opcodes,
+   vectors, masks), regenerated into GenSandNet.v on each run, pinned to the value the proofs and statements were written
+   for: a change of the wire layout or of a constant in /repo breaks this obligation deterministically *)
+Theorem c06_sandnet_consts :
+  SA_PACKET_SIZE = 524 /\
+  SA_OPCODE_SIZE = 2 /\
+  SA_OFF_opcode = 0 /\
+  SA_OFF_contents = 2 /\
+  SA_DMX_SIZE = 515 /\
+  SA_DMX_DATA = 512 /\
+  SA_OFF_dmx_group = 0 /\
+  SA_OFF_dmx_universe = 1 /\
+  SA_OFF_dmx_dmx = 3 /\
+  SA_CDMX_SIZE = 522 /\
+  SA_CDMX_DATA = 512 /\
+  SA_OFF_cdmx_group = 0 /\
+  SA_OFF_cdmx_universe = 1 /\
+  SA_OFF_cdmx_dmx = 10 /\
+  SA_ADVERTISEMENT_SIZE = 235 /\
+  SA_OP_DMX = 768 /\
+  SA_OP_COMPRESSED_DMX = 2560 /\
+  SA_OP_ADVERTISEMENT = 256.
+Proof. repeat split; reflexivity. Qed.
+Print Assumptions c06_sandnet_consts.
 
 Theorem c06_sandnet_no_oob : forall buf n self st,
   bytes_ok buf = true -> len buf = 524 -> n <= len buf ->
@@ -342,6 +764,37 @@ Proof.
 Qed.
 Print Assumptions c06_sandnet_stale_free.
 
+(* independent of the capacity and of what the socket layer reports: for a receive buffer of ANY size and ANY reported
+   length n < 2^31 the handler returns (its loops end within their fuel: RLE decoder: fuel = data length + 1, every turn consumes at least one byte) and never divides by zero; and if
+   the buffer does hold n bytes it reads nothing at or beyond n *)
+Theorem c06_sandnet_any_length : forall buf n self st,
+  bytes_ok buf = true -> n <= 2147483647 ->
+  (forall z, z <> Oob -> run buf (sa_handle n self st) <> Hazard z) /\
+  (n <= len buf -> forall z, run buf (sa_handle n self st) <> Hazard z).
+Proof.
+  intros buf n self st Hb Hn. pose proof (sandnet_bounded_any n self st Hn) as B. split.
+  - intros z Hz E. apply Hz. exact (nofail_run _ (bounded_nofail _ _ B) buf z Hb E).
+  - intros Hl z. apply (bounded_no_hazard n); assumption.
+Qed.
+Print Assumptions c06_sandnet_any_length.
+
+(* history level: any sequence of datagrams (each from our own address or not), each followed in the receive buffer by arbitrary stale bytes, from any
+   initial state: no datagram ends in a hazard, and every output and the final state are the same whatever the
+   stale tails are *)
+Theorem c06_sandnet_history : forall (h1 h2 : list (bool * list N * list N)) s,
+  Forall (fun x => let '(_, d, t) := x in bytes_ok d = true /\ bytes_ok t = true /\ len d <= 524) h1 ->
+  Forall2 (fun x y => fst x = fst y) h1 h2 ->
+  (exists r, run_hist (fun self n st => sa_handle n self st) (fun _ r => fst r) s h1 = Done r) /\
+  run_hist (fun self n st => sa_handle n self st) (fun _ r => fst r) s h1 = run_hist (fun self n st => sa_handle n self st) (fun _ r => fst r) s h2.
+Proof.
+  intros h1 h2 s Hok H2.
+  assert (Hb : forall i n st, n <= SA_PACKET_SIZE -> bounded n ((fun self n st => sa_handle n self st) i n st)) by (intros; apply sandnet_bounded; assumption).
+  split.
+  - apply (hist_safe SA_PACKET_SIZE _ _ Hb). exact Hok.
+  - apply (hist_stale_free SA_PACKET_SIZE _ _ Hb); assumption.
+Qed.
+Print Assumptions c06_sandnet_history.
+
 (* compressed DMX for group 2 universe 7: repeat 3 x 9, literal [1; 2] *)
 Example ex_sandnet_handled :
   run ([10; 0; 2; 7; 0; 0; 0; 0; 0; 2; 0; 5; 131; 9; 2; 1; 2] ++ repeat 165 507)
@@ -363,6 +816,45 @@ Theorem c06_pathport_layout :
    PP_MAX_UNIVERSES) = (1500, 20, 4, 8, 32, 127).
 Proof. reflexivity. Qed.
 Print Assumptions c06_pathport_layout.
+
+(* every constant the pathport model takes from the repository (sizeof / offsetof of the packed wire structs, opcodes,
+   vectors, masks), regenerated into GenPathport.v on each run, pinned to the value the proofs and statements were written
+   for: a change of the wire layout or of a constant in /repo breaks this obligation deterministically *)
+Theorem c06_pathport_consts :
+  PP_PACKET_SIZE = 1500 /\
+  PP_HEADER_SIZE = 20 /\
+  PP_PDU_HEADER_SIZE = 4 /\
+  PP_PDU_DATA_SIZE = 8 /\
+  PP_ARP_REPLY_SIZE = 12 /\
+  PP_OFF_protocol = 0 /\
+  PP_OFF_version_major = 2 /\
+  PP_OFF_version_minor = 3 /\
+  PP_OFF_destination = 16 /\
+  PP_OFF_pdu = 20 /\
+  PP_OFF_pdu_type = 0 /\
+  PP_OFF_pdu_d = 4 /\
+  PP_OFF_d_type = 0 /\
+  PP_OFF_d_channel_count = 2 /\
+  PP_OFF_d_start_code = 5 /\
+  PP_OFF_d_offset = 6 /\
+  PP_OFF_d_data = 8 /\
+  PP_MAX_UNIVERSES = 127 /\
+  PP_PROTOCOL = 60673 /\
+  PP_MAJOR_VERSION = 2 /\
+  PP_MINOR_VERSION = 0 /\
+  PP_ID_BROADCAST = 4294967295 /\
+  PP_STATUS_GROUP = 4026527231 /\
+  PP_CONFIG_GROUP = 4026526978 /\
+  PP_DATA_GROUP = 4026526977 /\
+  PP_DATA = 256 /\
+  PP_ARP_REQUEST = 769 /\
+  PP_ARP_REPLY = 770 /\
+  PP_XDMX_DATA_FLAT = 257 /\
+  PP_NODE_MANUF_ZP_TECH = 40 /\
+  PP_NODE_CLASS_DMX_NODE = 0 /\
+  PP_NODE_DEVICE_PATHPORT = 0.
+Proof. repeat split; reflexivity. Qed.
+Print Assumptions c06_pathport_consts.
 
 Theorem c06_pathport_no_oob : forall buf n st,
   bytes_ok buf = true -> len buf = 1500 -> n <= len buf ->
@@ -396,6 +888,52 @@ Proof.
 Qed.
 Print Assumptions c06_pathport_stale_free.
 
+(* "never fails to return": the universe-spanning loop of HandleDmxData ends within fuel >= MAX_UNIVERSES + 2 -
+   universe (the universe number grows by one per turn and the loop stops above MAX_UNIVERSES), for any position,
+   data size < 2^32, offset < 512 and starting universe <= MAX_UNIVERSES + 1 *)
+Theorem c06_pathport_loop_returns : forall buf fuel pos ds off uni hs hits z,
+  bytes_ok buf = true -> ds < 4294967296 -> off < 512 -> uni <= PP_MAX_UNIVERSES + 1 ->
+  PP_MAX_UNIVERSES + 2 <= uni + N.of_nat fuel -> z <> Oob ->
+  run buf (pp_loop pos ds off uni hs hits fuel) <> Hazard z.
+Proof.
+  intros buf fuel pos ds off uni hs hits z Hb Hd Ho Hu Hf Hz E. apply Hz.
+  assert (B : bounded (pos + ds) (pp_loop pos ds off uni hs hits fuel))
+    by (apply pp_loop_bounded; auto; unfold DMX_UNIVERSE_SIZE; lia).
+  exact (nofail_run _ (bounded_nofail _ _ B) buf z Hb E).
+Qed.
+Print Assumptions c06_pathport_loop_returns.
+
+(* independent of the capacity and of what the socket layer reports: for a receive buffer of ANY size and ANY reported
+   length n < 2^31 the handler returns (its loops end within their fuel: universe-spanning loop: fuel = MAX_UNIVERSES + 2 - universe, the universe number grows by one per turn) and never divides by zero; and if
+   the buffer does hold n bytes it reads nothing at or beyond n *)
+Theorem c06_pathport_any_length : forall buf n st,
+  bytes_ok buf = true -> n <= 2147483647 ->
+  (forall z, z <> Oob -> run buf (pathport_handle n st) <> Hazard z) /\
+  (n <= len buf -> forall z, run buf (pathport_handle n st) <> Hazard z).
+Proof.
+  intros buf n st Hb Hn. pose proof (pathport_bounded_any n st Hn) as B. split.
+  - intros z Hz E. apply Hz. exact (nofail_run _ (bounded_nofail _ _ B) buf z Hb E).
+  - intros Hl z. apply (bounded_no_hazard n); assumption.
+Qed.
+Print Assumptions c06_pathport_any_length.
+
+(* history level: any sequence of datagrams, each followed in the receive buffer by arbitrary stale bytes, from any
+   initial state: no datagram ends in a hazard, and every output and the final state are the same whatever the
+   stale tails are *)
+Theorem c06_pathport_history : forall (h1 h2 : list (unit * list N * list N)) s,
+  Forall (fun x => let '(_, d, t) := x in bytes_ok d = true /\ bytes_ok t = true /\ len d <= 1500) h1 ->
+  Forall2 (fun x y => fst x = fst y) h1 h2 ->
+  (exists r, run_hist (fun (_ : unit) n st => pathport_handle n st) (fun st r => {| pp_dev := pp_dev st; pp_self := pp_self st; pp_ip := pp_ip st; pp_seq := pp_seq st; pp_hs := fst (fst r) |}) s h1 = Done r) /\
+  run_hist (fun (_ : unit) n st => pathport_handle n st) (fun st r => {| pp_dev := pp_dev st; pp_self := pp_self st; pp_ip := pp_ip st; pp_seq := pp_seq st; pp_hs := fst (fst r) |}) s h1 = run_hist (fun (_ : unit) n st => pathport_handle n st) (fun st r => {| pp_dev := pp_dev st; pp_self := pp_self st; pp_ip := pp_ip st; pp_seq := pp_seq st; pp_hs := fst (fst r) |}) s h2.
+Proof.
+  intros h1 h2 s Hok H2.
+  assert (Hb : forall i n st, n <= PP_PACKET_SIZE -> bounded n ((fun (_ : unit) n st => pathport_handle n st) i n st)) by (intros; apply pathport_bounded; assumption).
+  split.
+  - apply (hist_safe PP_PACKET_SIZE _ _ Hb). exact Hok.
+  - apply (hist_stale_free PP_PACKET_SIZE _ _ Hb); assumption.
+Qed.
+Print Assumptions c06_pathport_history.
+
 (* a 3-slot frame at offset 511 of universe 1 lands in the handlers of universes 1 and 2 *)
 Example ex_pathport_handled :
   run ([237; 1; 2; 0; 0; 9] ++ repeat 0 6 ++ [0; 0; 0; 7] ++ [255; 255; 255; 255] ++ [1; 0; 0; 11]
@@ -419,6 +957,14 @@ Proof. vm_compute. reflexivity. Qed.
 Theorem c06_kinet_layout : KN_PACKET_SIZE = 1500.
 Proof. reflexivity. Qed.
 Print Assumptions c06_kinet_layout.
+
+(* every constant the kinet model takes from the repository (sizeof / offsetof of the packed wire structs, opcodes,
+   vectors, masks), regenerated into GenKiNet.v on each run, pinned to the value the proofs and statements were written
+   for: a change of the wire layout or of a constant in /repo breaks this obligation deterministically *)
+Theorem c06_kinet_consts :
+  KN_PACKET_SIZE = 1500.
+Proof. repeat split; reflexivity. Qed.
+Print Assumptions c06_kinet_consts.
 
 Theorem c06_kinet_no_oob : forall buf n st,
   bytes_ok buf = true -> len buf = 1500 -> n <= len buf ->
@@ -447,6 +993,23 @@ Proof.
   unfold KN_PACKET_SIZE. lia.
 Qed.
 Print Assumptions c06_kinet_stale_free.
+
+(* history level: any sequence of datagrams, each followed in the receive buffer by arbitrary stale bytes, from any
+   initial state: no datagram ends in a hazard, and every output and the final state are the same whatever the
+   stale tails are *)
+Theorem c06_kinet_history : forall (h1 h2 : list (unit * list N * list N)) s,
+  Forall (fun x => let '(_, d, t) := x in bytes_ok d = true /\ bytes_ok t = true /\ len d <= 1500) h1 ->
+  Forall2 (fun x y => fst x = fst y) h1 h2 ->
+  (exists r, run_hist (fun (_ : unit) n st => kinet_handle n st) (fun _ r => fst r) s h1 = Done r) /\
+  run_hist (fun (_ : unit) n st => kinet_handle n st) (fun _ r => fst r) s h1 = run_hist (fun (_ : unit) n st => kinet_handle n st) (fun _ r => fst r) s h2.
+Proof.
+  intros h1 h2 s Hok H2.
+  assert (Hb : forall i n st, n <= KN_PACKET_SIZE -> bounded n ((fun (_ : unit) n st => kinet_handle n st) i n st)) by (intros; apply kinet_bounded; assumption).
+  split.
+  - apply (hist_safe KN_PACKET_SIZE _ _ Hb). exact Hok.
+  - apply (hist_stale_free KN_PACKET_SIZE _ _ Hb); assumption.
+Qed.
+Print Assumptions c06_kinet_history.
 
 Example ex_kinet_discarded :
   run ([4; 1; 220; 74; 1; 0; 1; 1] ++ repeat 165 1492) (kinet_handle 8 {| kn_txn := 7; kn_queued := 0 |})
